@@ -30,6 +30,10 @@
 (*   Step_C20_AcctBalancePitNoEffective  accounts as of t filtered by balance *)
 (*                                    without effective volumes (must be      *)
 (*                                    rejected: missing feature)              *)
+(*   Step_C20_AcctBalanceNoAsset      accounts filtered by "balance" without  *)
+(*                                    an asset: never an internal error, and  *)
+(*                                    the comparison holds iff it holds in    *)
+(*                                    some asset the account holds            *)
 (*   Step_C37_ParamsPartialOverride   template run whose request params omit  *)
 (*                                    a field the template sets               *)
 (*   Step_C37_VarExactAmounts         template run with an amount variable     *)
@@ -117,6 +121,9 @@ TplPartial(q0) == LET t == q0.tpl.params
                   IN AnyParam(c) /\ ((t.hpit /\ ~c.hpit) \/ (t.hoot /\ ~c.hoot) \/ (t.hsize /\ ~c.hsize) \/ (t.hexp /\ ~c.hexp))
 
 UsesMeta(q) == UsesField(q.filter, "metadata")
+RECURSIVE UsesPlainBalance(_)
+UsesPlainBalance(f) == IF f.op \in {"and", "or", "not"} THEN \E i \in DOMAIN f.args : UsesPlainBalance(f.args[i])
+                       ELSE f.op # "true" /\ f.f = "balance" /\ f.k = ""
 AcctDelAfter(R, pit) == \E k \in DOMAIN R.jr : R.jr[k].kind = "acct" /\ R.jr[k].op = "del" /\ R.jr[k].date > pit
 
 \* order of two consecutive items of a listing
@@ -149,6 +156,7 @@ Judge(i, si) ==
         ELSE IF b = "volumes" /\ UseWindow(q) /\ ~amh /\ UsesMeta(q) THEN "volnohist"
         ELSE IF b \in {"volumes", "agg"} /\ HasInOnAddress(q.filter) /\ NeedSegments(q.filter) THEN "lateralin"
         ELSE IF b = "accounts" /\ q.pit # 0 /\ UsesField(q.filter, "balance") /\ R.flags.moves /\ ~R.flags.eff THEN "acctbalnoeff"
+        ELSE IF b = "accounts" /\ UsesPlainBalance(q.filter) THEN "acctbalnoasset"
         ELSE "none"
       metaClass ==
         IF out.status = "inexact" THEN "inexact"
@@ -158,6 +166,8 @@ Judge(i, si) ==
         ELSE IF b = "accounts" /\ q.pit # 0 /\ amh /\ AcctDelAfter(R, q.pit) THEN "acctdel"
         ELSE "none"
       needs == ~rejected /\ NeedsMissingFeature(R.flags, q)
+      \* some account visible to the query holds several assets: a balance comparison without asset is then unspecified
+      multi == b = "accounts" /\ ~needs /\ \E e \in AcctEntities(R, q) : Cardinality(DOMAIN e.bal) > 1
       exp == ExpSet(R, q)
       wantStatus == IF rejected \/ needs THEN "validation"
                     ELSE IF single /\ exp = {} THEN "not_found" ELSE "ok"
@@ -172,6 +182,7 @@ Judge(i, si) ==
                         ELSE [j \in DOMAIN p |-> KeyOf(b, p[j])] = [j \in DOMAIN w |-> KeyOf(b, w[j])]
   IN [selClass |-> selClass, metaClass |-> metaClass, tpl |-> tpl, base |-> b, single |-> single,
       filtered |-> q0.filter.op # "true" /\ ~single,
+      multi |-> multi, notInternal |-> out.status # "internal",
       status |-> out.status = wantStatus,
       content |-> judged =>
          /\ {StripMeta(b, x) : x \in ToSet(all)} = {StripMeta(b, e) : e \in exp}
@@ -229,11 +240,15 @@ ReadChecks(i, si) ==
         <<"Step_C37_RunExactAmounts", cls("inexact"), FALSE>>,
         <<"Step_C37_VarExactAmounts", cls("tplbignum"), allOf>>,
         <<"Step_C37_ParamsPartialOverride", cls("tplpartial"), allOf>>,
-        <<"Step_C17_TxPitMixedFlags", cls("txmixed"), allOf>>,
-        <<"Step_C17_AcctPitAfterDelete", cls("acctdel"), allOf>>,
+        \* (a read that is in the class only through its metadata CONTENT is judged on that content here; its status and
+        \*  selection are judged by the predicate that owns its selection class)
+        <<"Step_C17_TxPitMixedFlags", cls("txmixed"), IF j.selClass = "txmixed" THEN allOf ELSE j.meta>>,
+        <<"Step_C17_AcctPitAfterDelete", cls("acctdel"), IF j.selClass = "acctdel" THEN allOf ELSE j.meta>>,
         <<"Step_C20_VolumesWindowMetaNoHistory", cls("volnohist"), allOf>>,
         <<"Step_C20_LateralInArray", cls("lateralin"), allOf>>,
-        <<"Step_C20_AcctBalancePitNoEffective", cls("acctbalnoeff"), allOf>> >>
+        <<"Step_C20_AcctBalancePitNoEffective", cls("acctbalnoeff"), allOf>>,
+        \* never an internal error (it was one as soon as a visible account held several assets), and the strict comparison
+        <<"Step_C20_AcctBalanceNoAsset", cls("acctbalnoasset"), j.notInternal /\ allOf>> >>
 
 \* state lines: the journal extracted from the logs explains the current metadata (C17, binds jr to the state)
 I_C17_JournalIsMeta(i) == JournalIsMeta(RS(Trace[i].st))
@@ -276,6 +291,7 @@ Step_C17_AcctPitAfterDelete == StepOK("Step_C17_AcctPitAfterDelete")
 Step_C20_VolumesWindowMetaNoHistory == StepOK("Step_C20_VolumesWindowMetaNoHistory")
 Step_C20_LateralInArray == StepOK("Step_C20_LateralInArray")
 Step_C20_AcctBalancePitNoEffective == StepOK("Step_C20_AcctBalancePitNoEffective")
+Step_C20_AcctBalanceNoAsset == StepOK("Step_C20_AcctBalanceNoAsset")
 
 Accepted == TLCGet("stats").diameter - 1 = Len(Trace)
 
